@@ -44,7 +44,7 @@ def parse_model(line):
 
 
 def run_interp_check(pid, gen, fields, counts, tier, seed, rule, design_ref, extra_assumptions=(), known_sig=None,
-                     max_dropped=0.10):
+                     max_dropped=0.10, impl_oracle=None):
     res = Result(pid, tier, seed)
     harness = common.build_harness()
     bad = common.forbidden_scan()
@@ -69,6 +69,12 @@ def run_interp_check(pid, gen, fields, counts, tier, seed, rule, design_ref, ext
                     res.violation({"property": pid, "kind": "the interpreter panicked (escaped into the host)",
                                    "source": c["src"], "panic": impl.get("msg"), "model": m})
                 continue
+            if impl_oracle:
+                for why in impl_oracle(c):
+                    mism += 1
+                    if len(res.violations) < 8:
+                        res.violation({"property": pid, "kind": "law violated by the implementation alone: " + why,
+                                       "source": c["src"], "impl": impl})
             if impl["status"] == "timeout":
                 dropped["impl-timeout"] = dropped.get("impl-timeout", 0) + 1
                 continue
